@@ -23,7 +23,8 @@ Record sobs := mkSO {
   so_wc : Z; so_ws : Z;         (* envelopes written so far by the client / by the server *)
   so_dc : Z; so_ds : Z;         (* envelopes handed so far to the server's / the client's transport *)
   so_srvg : Z;                  (* live goroutines of the server side *)
-  so_serve : bool }.            (* Serve has returned *)
+  so_serve : bool;              (* Serve has returned *)
+  so_hbusy : list Z }.          (* calls whose handler is parked inside an operation (RecvMsg, SendMsg, ...) *)
 
 Record step := mkStep { st_kind : skind; st_acts : list act; st_co : obs; st_so : sobs }.
 
@@ -218,12 +219,19 @@ Definition c07_call (c : nat) (steps : list step) (c2s : list penv) (ids : list 
                            (st :: after) in
         let last := last (st :: after) st in
         let r5b := if so_dc (st_so last) =? so_wc (st_so last) then negb (hctx_live (Z.of_nat c) (st_so last)) else true in
+        (* "handler reads / writes unblock on its context": at no quiescent point after the reset reached the server is the
+           handler parked inside an operation; and at the end, with everything delivered, the handler has returned *)
+        let r5c := forallb (fun s => if (0 <? rst_pos) && (rst_pos <=? so_dc (st_so s))
+                                     then negb (existsb (Z.eqb (Z.of_nat c)) (so_hbusy (st_so s))) else true) (st :: after) in
+        let r5d := if (0 <? rst_pos) && (so_dc (st_so last) =? so_wc (st_so last))
+                   then negb (existsb (fun p => fst p =? Z.of_nat c) (so_hctx (st_so last))) else true in
         (* a write fault (it covers the teardown only, see wfault_hits): the reset may be lost and with it the handler's
            cancellation; the caller's side is judged *)
         if faulty steps then (if r2 then [] else [2%nat]) ++ (if r3 then [] else [3%nat])
         else
         (if r2 then [] else [2%nat]) ++ (if r3 then [] else [3%nat]) ++ (if r4 then [] else [4%nat]) ++
-        (if r5a && r5b then [] else [5%nat])
+        (* 7 is reported only where 5 is not: a handler whose context is live is parked as a consequence *)
+        (if r5a && r5b then (if r5c && r5d then [] else [7%nat]) else [5%nat])
   end.
 
 (* a cancellation that lands WHILE the stream is being opened (the step that starts call c also cancels it: the
